@@ -96,6 +96,10 @@ func (s *streamWS) RecvMsg(m interface{}) error {
 			if cerr, ok := err.(wsutil.ClosedError); ok && cerr.Code == ws.StatusNormalClosure {
 				return io.EOF // the client ended its stream
 			}
+			if err == io.EOF {
+				// The connection was dropped without a close frame.
+				return io.ErrUnexpectedEOF
+			}
 			return err
 		}
 		if len(b) > s.maxRecv {
